@@ -42,7 +42,8 @@ def run_unit(job, progress=None):
             res = vcgen.verify_unit(repo, reg, name, timeout_ms, inst)
             out = dict(kind=kind, name=res.unit, status=res.status, message=res.message, paths=res.paths,
                        inlined=res.inlined, node_kinds=res.node_kinds, vacuity=res.vacuity, src=res.src,
-                       obligations=[], gen_time=res.time, fingerprint=getattr(res, "fingerprint", None))
+                       obligations=[], gen_time=res.time, fingerprint=getattr(res, "fingerprint", None),
+                       fn_hashes=getattr(res, "fn_hashes", None))
             axioms = res.ex.global_axioms if hasattr(res, "ex") else []
             if progress is not None:
                 progress(len(res.obligations))
